@@ -523,6 +523,8 @@ pub fn run_render(tier: &str, seed: u64, out: &mut Out) {
         ("<template name=\"t1\">T1 {{ x }}</template><template is=\"{{ s }}\" data=\"{{ x: a }}\"/><view>{{ a }}</view><template is=\"{{ b ? '' : 't1' }}\"/>",
          vec![json!({"$o": {"s": "", "a": 1, "b": true}}), json!({"$o": {"s": "t1", "a": 2, "b": false}}),
               json!({"$o": {"s": "nope", "a": 3, "b": 0}}), json!({"$o": {"a": 4, "b": ""}})]),
+        ("<v wx:if=\"yes\">A</v><v wx:else>B</v><w wx:if=\"{{ a }}\">C</w><w wx:elif=\"always\">D</w><w wx:else>E</w><x wx:if=\"\">F</x><x wx:else>G</x><y wx:if=\"{{ a }}\">H</y><y wx:elif=\"\">I</y><y wx:elif=\"0\">J</y>",
+         vec![json!({"$o": {"a": 0}}), json!({"$o": {"a": 1}})]),
         ("<c><slot name=\"n\" data-k=\"{{ a }}\"/><slot data:j=\"x\"/><slot name=\"{{ s }}\"/></c>",
          vec![json!({"$o": {"s": "", "a": 1}}), json!({"$o": {"s": "q", "a": "v"}})]),
     ];
